@@ -327,11 +327,18 @@ def get_additional_structure_methods(
     params = [f"{k}: {v}" for k, v in ordered_args_with_none.items()]
     params_with_self = f",\n{INDENT * 2}".join([f"{INDENT * 2}self"] + params)
     kw_opt = (
-        f",\n{INDENT * 2}**kw"
+        f",\n{INDENT * 2}**{_var_keyword_name(ordered_args)}"
         if getattr(cls, ADDITIONAL_PROPERTIES, additional_properties_default)
         else ""
     )
     shallow_clone = f"    def shallow_clone_with_overrides(\n{params_with_self}{kw_opt}\n{INDENT}): ..."
+    # a field called like one of the fixed parameters below cannot be passed as an override at run time either
+    # (the name binds to the fixed parameter): leave it out instead of emitting a duplicate argument
+    params = [
+        f"{k}: {v}"
+        for k, v in ordered_args_with_none.items()
+        if k not in {"source_object", "ignore_props"}
+    ]
 
     params_with_cls = f",\n{INDENT * 2}".join(
         [f"{INDENT}cls", "source_object: Any", "*"]
@@ -363,12 +370,16 @@ def get_additional_structure_methods(
     return "\n".join([shallow_clone, from_other_class, from_trusted_data])
 
 
+def _var_keyword_name(ordered_args: dict) -> str:
+    return "kwargs" if "kw" in ordered_args else "kw"
+
+
 def get_init(cls, ordered_args: dict, additional_properties_default: bool) -> str:
     init_params = f",\n{INDENT * 2}".join(
         [f"{INDENT * 2}self"] + [f"{k}: {v}" for k, v in ordered_args.items()]
     )
     kw_opt = (
-        f",\n{INDENT * 2}**kw"
+        f",\n{INDENT * 2}**{_var_keyword_name(ordered_args)}"
         if getattr(cls, ADDITIONAL_PROPERTIES, additional_properties_default)
         else ""
     )
